@@ -30,6 +30,7 @@ class Check(BaseCheck):
     def translate(self):
         extract.gen_fem()
         extract.gen_diffgeo()
+        extract.gen_dispatch()
 
     def correspond(self, drv, stats):
         fails = []
